@@ -43,6 +43,7 @@ def run(check: Check, repo: Repo, tier: str) -> None:
     L.printer_per_return(check, repo, model)
     L.print_direct(check, repo)
     L.leaf_text_verbatim(check, repo)
+    L.block_string_charset(check, repo)
     L.printer_no_cross_compare(check, repo, model)
     L.order_agree(check, repo, model, sides=("printer",), floor=30)
     L.ws_agree(check, repo, SCOPE + ['utilities.strip_ignored_characters'])
